@@ -880,6 +880,37 @@ pub fn c07_structure(input: &str, ext_idx: usize, conv_sel: u8, st: &mut Stats) 
             st.nontrivial(&(input, ext_idx, conv_sel));
         }
     }
+    // completeness seen from the output: a result without errors holds no cataloged invalid construct
+    if let (Some(r), false) = (res.output(), has_err) {
+        for (kind, name, alias) in r
+            .ingredients
+            .iter()
+            // a recipe path reference such as `@./dir/{}` derives its name from the path: what was written is not empty
+            .filter(|i| i.reference.is_none())
+            .map(|i| ("ingredient", &i.name, &i.alias))
+            .chain(r.cookware.iter().map(|c| ("cookware", &c.name, &c.alias)))
+        {
+            vensure!(
+                !name.trim().is_empty(),
+                "c07.missing-diagnostic.empty-name",
+                "a result without errors holds an {kind} whose name is {name:?} (empty names are invalid); extensions {}; input {input:?}",
+                ext_name(ext_idx)
+            );
+            vensure!(
+                alias.as_ref().map_or(true, |a| !a.trim().is_empty()),
+                "c07.missing-diagnostic.empty-alias",
+                "a result without errors holds an {kind} {name:?} whose alias is {alias:?} (empty aliases are invalid); extensions {}; input {input:?}",
+                ext_name(ext_idx)
+            );
+        }
+        for t in &r.timers {
+            vensure!(
+                t.name.as_ref().map_or(true, |n| !n.trim().is_empty()) || t.quantity.is_some(),
+                "c07.missing-diagnostic.timer-with-neither-name-nor-duration",
+                "a result without errors holds the timer {t:?}; input {input:?}"
+            );
+        }
+    }
     // the event stream's own error events are exactly the parse-stage errors
     if let Ok(events) = guard(|| PullParser::new(input, ALL_EXTS[ext_idx]).collect::<Vec<_>>()) {
         let ev_err = events.iter().filter(|e| matches!(e, Event::Error(_))).count();
@@ -923,6 +954,29 @@ pub fn c14_meta(input: &str, ext_idx: usize, conv_sel: u8, st: &mut Stats) -> Ve
         "parse_metadata gives {:?} but parse gives {:?}; extensions {}; input {input:?}",
         m.map,
         f.metadata.map,
+        ext_name(ext_idx)
+    );
+    // the same with parse options (a validator that excludes some keys, skips the standard checks
+    // of others and warns about others): both entry points take the options and must still agree
+    let (full, meta) = match guard(|| (p.parse_with_options(input, test_options()), p.parse_metadata_with_options(input, test_options()))) {
+        Ok(r) => r,
+        Err(_) => {
+            st.exclude("parse with options panicked (C03's business)");
+            return Ok(());
+        }
+    };
+    let (Some(fo), Some(mo)) = (full.output(), meta.output()) else {
+        return Ok(());
+    };
+    st.class_if(fo.metadata.map.len() < f.metadata.map.len(), "validator-excluded-a-key");
+    let fe: Vec<_> = fo.metadata.map.iter().collect();
+    let me: Vec<_> = mo.map.iter().collect();
+    vensure!(
+        fe == me,
+        "c14.metadata-differs-with-options",
+        "with a metadata validator parse_metadata_with_options gives {:?} but parse_with_options gives {:?}; extensions {}; input {input:?}",
+        mo.map,
+        fo.metadata.map,
         ext_name(ext_idx)
     );
     Ok(())
